@@ -1470,3 +1470,66 @@ def diff_session(script, exp, obs):
         elif e != o:
             return "step %d %r: expected %r, got %r" % (step, act, e, o)
     return None
+
+
+# ---------------------------------------------------------------------------------------------
+# analysis look-up tables indexed out of event order (add_analysis_indices)
+def gen_cells(rng, n, nrows):
+    """index cells of n events into a table of nrows rows: shared rows, cells pointing back to earlier
+    rows, overlapping ranges, an early event reaching further than every later one, zero-length cells"""
+    kind = rng.choice(["random", "random", "backward", "shared", "long_first", "long_middle", "nested"])
+    cells = []
+    for g in range(n):
+        if kind == "backward":
+            s = max(0, nrows - 1 - g % nrows)
+            ln = rng.randint(0, nrows - s)
+        elif kind == "shared":
+            s = rng.choice([0, nrows // 2])
+            ln = rng.randint(1, nrows - s)
+        elif kind == "long_first":
+            s, ln = (0, nrows) if g == 0 else (rng.randint(0, nrows - 1), 1)
+        elif kind == "long_middle":
+            s, ln = (0, nrows) if g == n // 2 else (rng.randint(0, nrows - 1), rng.randint(0, 1))
+        elif kind == "nested":
+            s = min(g, nrows - 1)
+            ln = max(0, nrows - 2 * s)
+        else:
+            s = rng.randint(0, nrows - 1)
+            ln = rng.randint(0, nrows - s)
+        cells.append((s, ln))
+    return kind, cells
+
+
+def add_lookup(fn, spec, cells, nrows):
+    """append the look-up dataset `lookup` (row r holds the value 10*r) and its index cells to a written file"""
+    import numpy as np
+    from pyrex.io import File
+    w = File(fn, "a", **writer_kwargs(spec))
+    w.open()
+    try:
+        ds = w.create_analysis_dataset("lookup", data=np.arange(float(nrows)).reshape(nrows, 1) * 10)
+        ds.attrs["keys"] = ["val"]
+        for g, (s, ln) in enumerate(cells):
+            w.add_analysis_indices("lookup", g, s, ln)
+    finally:
+        w.close()
+
+
+def lookup_rows(ev):
+    d = ev.get_data("lookup")
+    return tuple(int(round(float(x) / 10)) for x in (d.ravel() if len(d) else []))
+
+
+def lookup_drain(make):
+    """-> (err, [rows of each event])"""
+    out = []
+    try:
+        for ev in make():
+            out.append(lookup_rows(ev))
+    except Exception as e:      # noqa: BLE001
+        return errname(e) + ":" + _tail(e)[:120], out
+    return "stop", out
+
+
+def lookup_reply(err, evs):
+    return "%s | %s" % (err, ";".join(",".join(str(r) for r in ev) for ev in evs))
